@@ -233,6 +233,22 @@ def r09_6(run):
     for n in walk_unit(add):
         if isinstance(n, ast.Assign) and isinstance(n.targets[0], ast.Subscript) and dotted(n.targets[0].value) == 'self._circuit_targets':
             wkeys.append(n.targets[0].slice)
+    # registering a connection's local address always takes the slot: an entry left behind by a connection that died before Tor
+    # announced its stream must not outlive a later connection that reuses the local port (first-wins would attach the new
+    # connection's stream to the old circuit)
+    gadd = cfg_of(add)
+    for c in calls_in(add):
+        if dotted(c.func) == 'self._circuit_targets.setdefault' and c.args:
+            wkeys.append(c.args[0])
+            run.ob('R09.6', add, c, 'a new via-circuit connection replaces whatever is registered under its local address', False, slot='register-replaces',
+                   message='_add_real_target registers with setdefault(): a stale entry for the same local (host, port) wins and the new connection\'s stream is attached to '
+                           'the old circuit')
+    for n in gadd.real_nodes():
+        if n.kind == 'stmt' and isinstance(n.ast, ast.Assign) and isinstance(n.ast.targets[0], ast.Subscript) and dotted(n.ast.targets[0].value) == 'self._circuit_targets':
+            gd = gadd.guarded_by(n, lambda t: mentions(t, 'self._circuit_targets'))
+            run.ob('R09.6', add, n.ast, 'a new via-circuit connection replaces whatever is registered under its local address', not gd, slot='register-replaces',
+                   message='_add_real_target registers the connection only under a test on the table (%s): a stale entry for the same local (host, port) keeps the slot'
+                           % [src(t.ast)[:40] for t, _ in gd])
     run.floor('R09.6', 'writes to _circuit_targets', len(wkeys), 1)
     p = add.params[1]
     for k in wkeys:
@@ -379,6 +395,8 @@ RULES = [
 from ..selftest import M  # noqa: E402
 FT, FC = 'txtorcon/torstate.py', 'txtorcon/circuit.py'
 MUTANTS = [
+    M('first-registration-wins', 'txtorcon/circuit.py', "        self._circuit_targets[(real_host, real_port)] = (circuit, d)", "        self._circuit_targets.setdefault((real_host, real_port), (circuit, d))", ['R09.6']),
+    M('register-unless-present', 'txtorcon/circuit.py', "        self._circuit_targets[(real_host, real_port)] = (circuit, d)", "        if (real_host, real_port) not in self._circuit_targets:\n            self._circuit_targets[(real_host, real_port)] = (circuit, d)", ['R09.6']),
     M('answer-coroutine-not-awaited', FT, "        circ_d.addCallback(maybe_coroutine)\n", "", ['R09.2']),
     M('when-built-removed', FC, "        yield self._circuit.when_built()\n        connect_d", "        connect_d", ['R09.7']),
     M('none-test-by-truthiness', FT, "            if circ is None:\n", "            if not circ:\n", ['R09.4']),
